@@ -574,6 +574,64 @@ def failing_reader(run, data, k):
     return r
 
 
+def _generated_classes(run):
+    """every generated struct / packet / case-data class of a loaded run (nested classes included)"""
+    out, todo = [], [c for c in run.classes.values() if isinstance(c.__dict__.get("serialize"), staticmethod)]
+    while todo:
+        c = todo.pop()
+        if c in out:
+            continue
+        out.append(c)
+        todo += [v for v in vars(c).values() if isinstance(v, type) and isinstance(v.__dict__.get("serialize"), staticmethod)]
+    return out
+
+
+def _expected_nested_modes(info, cname):
+    """the "consequently" clause of C15, read off the XML alone: a struct / case-data class called *directly* from `cname`'s
+    serialize or deserialize (entered with the mode off) is entered with the mode on iff its item lies inside a <chunked>
+    section of `cname`.  Classes used both inside and outside a section are left out.  -> {qualified class name: bool}"""
+    want: dict = {}
+    for it in info.bodies[cname].items:
+        names = []
+        if it.k in ("field", "array") and it.t is not None and it.t.kind == "struct":
+            names.append(it.t.name)
+        if it.k == "switch":
+            names += [c.body.cname for c in it.cases if c.body is not None]
+        for nm in names:
+            want.setdefault(nm, set()).add(bool(it.chunked))
+    return {k: next(iter(v)) for k, v in want.items() if len(v) == 1}
+
+
+def nested_entry_modes(run, cls, call):
+    """run `call()` with every generated serialize / deserialize wrapped; -> [(method, callee qualname, mode at entry)] for
+    the calls made directly by `cls`'s own method"""
+    seen, depth, saved = [], [0], []
+    for c in _generated_classes(run):
+        for meth, attr in (("serialize", "string_sanitization_mode"), ("deserialize", "chunked_reading_mode")):
+            orig = c.__dict__[meth]
+
+            def wrapper(*a, __f=orig.__func__, __c=c, __m=meth, __attr=attr):
+                io = a[0]
+                if depth[0] == 1:
+                    seen.append((__m, __c.__qualname__, bool(getattr(io, __attr))))
+                depth[0] += 1
+                try:
+                    return __f(*a)
+                finally:
+                    depth[0] -= 1
+            saved.append((c, meth, orig))
+            setattr(c, meth, staticmethod(wrapper))
+    try:
+        call()
+    except BaseException as e:  # noqa: BLE001 - only the entry modes are of interest here (incl. the time limit)
+        if isinstance(e, KeyboardInterrupt):
+            raise
+    finally:
+        for c, meth, orig in saved:
+            setattr(c, meth, orig)
+    return seen
+
+
 def run_c15(ctx: Ctx):
     rng = ctx.rng
     n = n_spec = 0
@@ -642,6 +700,27 @@ def run_c15(ctx: Ctx):
                                     fails(ctx, case, f"{sname}.deserialize (nested class called directly) left the chunked mode changed "
                                           f"(entry {ch}): `{rd[-40:]}`", {"class": sname, "bytes": common.tohex(data), "chunked": ch, "impl": rd})
                                     return
+                # the "consequently" clause, judged against the XML alone: entered with the mode off, `cname` calls the structs
+                # and case-data classes of its chunked sections with the mode on, all the others with the mode off
+                want = _expected_nested_modes(case.info, cname)
+                for obj, valid in objs:
+                    if not valid or not want:
+                        continue
+                    EoWriter, _ = genlib._mods()
+                    w = EoWriter()
+                    seen = nested_entry_modes(case.run, cls, lambda: cls.serialize(w, obj))
+                    data = bytes(w.to_bytearray())
+                    # (under the time limit every deserialisation of the harness runs under: known finding de:Diverges)
+                    seen += nested_entry_modes(case.run, cls, lambda: genlib.de_obj(cls, data, False, timeout=0.5))
+                    for meth, callee, mode in seen:
+                        n += 1
+                        if callee in want and mode != want[callee]:
+                            ctx.sig(("nested-entry", meth, mode))
+                            fails(ctx, case, f"{cname}.{meth} (entered with the mode off) enters {callee}.{meth} with the mode "
+                                  f"{'on' if mode else 'off'}, but {callee} lies {'inside' if want[callee] else 'outside'} the chunked "
+                                  f"sections of {cname}", {"class": cname, "object": genlib.render(obj), "callee": callee, "method": meth})
+                            return
+                    ctx.count("nested_entry_modes_checked", len(seen))
                 for obj, valid in objs:
                     ro = genlib.render(obj)
                     for san in (False, True):
